@@ -257,6 +257,40 @@ func checkC38(c *Ctx, r *Report) {
 			}
 		}
 	}
+	// the limiter key is the peer address of the connection, nothing the client can choose per
+	// request: remoteIP derives its result from r.RemoteAddr only and never reads a request header
+	if rip := needFn(m, r, "C38.R3", pkgConsole, "remoteIP"); rip != nil {
+		usesAddr, usesHeader := false, ""
+		for _, b := range rip.Blocks {
+			for _, in := range b.Instrs {
+				if fa, ok := in.(*ssa.FieldAddr); ok {
+					if _, f, _, ok := fieldAddrInfo(fa); ok {
+						switch f {
+						case "RemoteAddr":
+							usesAddr = true
+						case "Header", "Form", "PostForm", "URL", "Trailer", "Body":
+							usesHeader = f + " at " + m.Pos(fa.Pos())
+						}
+					}
+				}
+				if call, ok := in.(ssa.CallInstruction); ok {
+					n := calleeName(call.Common())
+					if strings.HasPrefix(n, "(net/http.Header).") || strings.HasSuffix(n, "http.Request).FormValue") || strings.HasSuffix(n, "http.Request).Cookie") || strings.HasSuffix(n, "http.Request).UserAgent") {
+						usesHeader = n + " at " + m.Pos(call.Pos())
+					}
+				}
+			}
+		}
+		key := "the limiter key comes from the connection's peer address only"
+		switch {
+		case usesHeader != "":
+			r.viol("C38.R3", key, m.Pos(rip.Pos()), "remoteIP reads "+usesHeader+": a client that varies that value per request gets a fresh limiter bucket each time")
+		case !usesAddr:
+			r.viol("C38.R3", key, m.Pos(rip.Pos()), "remoteIP does not read r.RemoteAddr")
+		default:
+			r.ok("C38.R3", key, m.Pos(rip.Pos()), "")
+		}
+	}
 	if al := needFn(m, r, "C38.R3", pkgConsole, "(*loginRateLimiter).Allow"); al != nil {
 		// `return true` (other than the nil-receiver case) and the append of `now` are reached only when
 		// !(len(hits) >= limit)
